@@ -214,8 +214,10 @@ def check(ctx: Ctx) -> None:
         if fn_ is None:
             ctx.note(f"{cname}.{meth} not found - C12.cer skipped for it")
             continue
-        for key, present in (("2", True), ("1", True), ("7", False)):
+        for key, present in (("2", True), ("1", True), ("7", False), ("none-table", False)):
             def run(ch, cname=cname, meth=meth, table=table, key=key):
+                none_table = key == "none-table"
+                key = "7" if none_table else key
                 it = Interp(model, ch)
                 it.ext_handlers["opaque-call"] = lambda _it, func, args, kwargs: args[0] if func.label.endswith(".load") else None
                 tables = {
@@ -225,6 +227,8 @@ def check(ctx: Ctx) -> None:
                     "hints": {"1": "hint one", "2": "hint two"},
                     "packages": {"1": "[1] U [2]", "2": "[3]"},
                 }
+                if none_table and table == "packages":
+                    tables[table] = None  # the model's default: nothing provided at all
                 cer = Obj("ahbicht.models.content_evaluation_result.ContentEvaluationResult", {**tables, "id": None})
                 data = Obj("ahbicht.content_evaluation.evaluationdatatypes.EvaluatableData", {"body": cer, "edifact_format": Opaque("fmt", truthy=True), "edifact_format_version": Opaque("fv", truthy=True)})
                 self_obj = Obj(cname, {"_schema": Opaque("schema", truthy=True), "logger": Opaque("logger", kind="logging.Logger", truthy=True), "edifact_format": Opaque("fmt", truthy=True)})
@@ -233,7 +237,7 @@ def check(ctx: Ctx) -> None:
                     res = it.await_(res, None, None)
                 except PyRaise as err:
                     return ("raise", err.exc.cls)
-                want = tables[table].get(key)
+                want = (tables[table] or {}).get(key)
                 if isinstance(res, Obj) and res.cls.endswith("PackageKeyConditionExpressionMapping"):
                     return ("ret", res.fields.get("package_expression") == want and res.fields.get("package_key") == key)
                 return ("ret", res is want or (isinstance(want, str) and res == want) or (want is None and res is None) or it.eq(res, want))
